@@ -140,6 +140,15 @@ CHECKS = {
           "0..1200 (secretbox and box in both cipher variants, sign, sign_open) and runs every stream XOR and AEAD encrypt/decrypt form with identical pointers, on the AVX2 / SSSE3 / reference backends; the expected answer is the "
           "disjoint-buffer answer."),
     note=NOTE_COMMON + "vector backends operating in place are covered by the correspondence only (no model of the SIMD kernels)."),
+ "C19": dict(
+    category="proof", design_ref="DESIGN.md §3.19",
+    technique="Lean 4 theorems over a labelled-transition-system model of the sodium_init lock protocol (inductive invariant over every schedule of every number of threads: init_once, init_safety, no_deadlock, init_completes) + correspondence: N-thread barrier races of the real sodium_init and a mixed workload compared with the model and the sequential run; ThreadSanitizer happens-before runs and a classified table of writable globals for the race-freedom half",
+    text=("PARTIAL BY NATURE. Proved in Lean for every number of threads and every interleaving: the initialisation body runs exactly once, exactly one call returns 0 and all others 1, no call returns before the body's writes are "
+          "complete and published under the mutex, and the protocol cannot deadlock. The model is tied to the code by racing 2..16 real threads through sodium_init behind a barrier (seeded spins / yields) and comparing the multiset of "
+          "returns and post-return initialisation probes with the model run on a pseudo-random schedule, then running the same mixed workload (all stateless op families, default and internal random generator, guarded allocation, "
+          "key generators) in every thread and comparing every output with the sequential run and the model. Data-race freedom after initialisation is not a theorem: it is decided by ThreadSanitizer on that workload "
+          "(system and internal generator, all CPU features and none) and by checking the built library's writable static objects against a classified table (a new writable global is reported)."),
+    note=NOTE_COMMON + "pthread mutex correctness assumed; hand-written assembly is not instrumented by TSan; one genuine race (global.pid in randombytes_internal) was found and repaired (known_findings.json)."),
 }
 
 NOT_YET = {}
